@@ -127,10 +127,14 @@ AppendSet(dst, fp, tss, st) ==               \* for _, v := range vals (ascendin
   ELSE LET t == CHOOSE x \in tss : \A y \in tss : x <= y IN
        AppendSet(AppendSample(dst, fp, t, st), fp, tss \ {t}, st)
 
+\* Series identity: series f has its own label set, and the label NAMES differ between series (series 2 carries one
+\* label more than the others; harness c13Labels). A response lists its series in Prometheus' order (labels.Compare),
+\* which puts series 2 first; pint's own order (labelsBefore: fewer labels first) is the id order used by Less.
+RespOrder == IF NSeries = 1 THEN << 1 >> ELSE << 2, 1 >> \o [i \in 1..(NSeries - 2) |-> i + 2]
 RECURSIVE StreamSeries(_, _, _, _, _, _)
-StreamSeries(dst, pr, f, sl, st, u) ==         \* streamSampleStream: one call per series of the response
-  IF f > NSeries THEN dst
-  ELSE StreamSeries(AppendSet(dst, f, SamplesOf(pr, f, sl, st, u), st), pr, f + 1, sl, st, u)
+StreamSeries(dst, pr, k, sl, st, u) ==        \* streamSampleStream: one call per series of the response, in response order
+  IF k > NSeries THEN dst
+  ELSE StreamSeries(AppendSet(dst, RespOrder[k], SamplesOf(pr, RespOrder[k], sl, st, u), st), pr, k + 1, sl, st, u)
 
 ExpandRangesEnd(rs, st) == [i \in 1..Len(rs) |-> [rs[i] EXCEPT !.e = @ + st - 1]]
 
